@@ -87,6 +87,9 @@ type sbE2E struct {
 	ConfigArchs bool `json:"config_archs,omitempty"`
 	// `apko publish` to an in-process registry instead of `apko build` (sbom_publish.go)
 	Publish bool `json:"publish,omitempty"`
+	// non-empty: these packages (a repository of their own) are built into a base image first; the configuration is then
+	// locked and built on top of it with contents.baseimage + --lockfile (sbom_base.go)
+	Base []SPkg `json:"base,omitempty"`
 }
 type sbCase struct {
 	Kind        string    `json:"kind"` // direct | e2e
